@@ -770,3 +770,125 @@ pub fn admission(e: &Exec, ops: &[OpRec], declared_outputs: &BTreeMap<String, Ve
     }
     v
 }
+
+fn parse_or_str(s: &str) -> serde_json::Value {
+    serde_json::from_str(s).unwrap_or_else(|_| serde_json::Value::String(s.to_string()))
+}
+
+/// C11: at every quiescent point the rows of the store agree with the live process
+pub fn store_image(e: &Exec) -> V {
+    let mut v = vec![];
+    for q in &e.points {
+        if !q.quiescent {
+            continue;
+        }
+        let stored = match &q.stored {
+            Some(s) => s,
+            None => continue,
+        };
+        for (pid, view) in &q.views {
+            let d = match view {
+                Some(d) => d,
+                None => continue,
+            };
+            let (prow, trows) = match stored.get(pid) {
+                Some(x) => x,
+                None => continue,
+            };
+            let prow = match prow {
+                Some(p) => p,
+                None => {
+                    push(&mut v, "proc-row/missing".into(), format!("process {pid} is live ({}) but has no row in the store", d.state));
+                    continue;
+                }
+            };
+            if prow["state"].as_str() != Some(d.state.as_str()) {
+                push(
+                    &mut v,
+                    format!("proc-row/state/{}-vs-{}", prow["state"].as_str().unwrap_or("?"), d.state),
+                    format!("process {pid}: stored state {} but live state {}", prow["state"], d.state),
+                );
+            }
+            let live_env = parse_or_str(&d.env);
+            let row_env = parse_or_str(prow["env"].as_str().unwrap_or(""));
+            if live_env != row_env {
+                push(&mut v, "proc-row/env".into(), format!("process {pid}: stored env {row_env} but live env {live_env}"));
+            }
+            let live_err = d.err.as_ref().map(|e| parse_or_str(e));
+            let row_err = prow["err"].as_str().map(parse_or_str);
+            if live_err != row_err {
+                push(&mut v, "proc-row/err".into(), format!("process {pid}: stored err {row_err:?} but live err {live_err:?}"));
+            }
+            let by: BTreeMap<&str, &serde_json::Value> = trows.iter().map(|t| (t["tid"].as_str().unwrap_or(""), t)).collect();
+            for t in &d.tasks {
+                let row = match by.get(t.tid.as_str()) {
+                    Some(r) => r,
+                    None => {
+                        push(
+                            &mut v,
+                            format!("task-row/missing/{}/{}", t.kind, t.state),
+                            format!("{} {} ({pid}:{}) is {} in the engine but has no row in the store", t.kind, t.nid, t.tid, t.state),
+                        );
+                        continue;
+                    }
+                };
+                if row["state"].as_str() != Some(t.state.as_str()) {
+                    push(
+                        &mut v,
+                        format!("task-row/state/{}/{}-vs-{}", t.kind, row["state"].as_str().unwrap_or("?"), t.state),
+                        format!("{} {} ({pid}:{}): stored state {} but live state {}", t.kind, t.nid, t.tid, row["state"], t.state),
+                    );
+                }
+                if row["prev"].as_str().map(|s| s.to_string()) != t.prev {
+                    push(&mut v, format!("task-row/prev/{}", t.kind), format!("{} {} ({pid}:{}): stored prev {} but live prev {:?}", t.kind, t.nid, t.tid, row["prev"], t.prev));
+                }
+                let (mut ld, mut rd) = (parse_or_str(&t.data), parse_or_str(row["data"].as_str().unwrap_or("")));
+                // `$params` is a cache of the evaluated act parameters, filled on first use and
+                // recomputed on demand: not state of the task
+                for d in [&mut ld, &mut rd] {
+                    if let Some(o) = d.as_object_mut() {
+                        o.remove("$params");
+                    }
+                }
+                if ld != rd {
+                    let keys: Vec<String> = match (&ld, &rd) {
+                        (serde_json::Value::Object(a), serde_json::Value::Object(b)) => {
+                            let mut ks: Vec<String> = a.keys().chain(b.keys()).filter(|k| a.get(*k) != b.get(*k)).cloned().collect();
+                            ks.sort();
+                            ks.dedup();
+                            ks
+                        }
+                        _ => vec![],
+                    };
+                    let class = if keys.iter().all(|k| k.starts_with('$')) { "engine-flags" } else { "variables" };
+                    push(
+                        &mut v,
+                        format!("task-row/data/{}/{class}", t.kind),
+                        format!("{} {} ({pid}:{}): stored data and live data differ in {keys:?}: stored {rd} live {ld}", t.kind, t.nid, t.tid),
+                    );
+                }
+                let (le, re) = (t.err.as_ref().map(|e| parse_or_str(e)), row["err"].as_str().map(parse_or_str));
+                if le != re {
+                    push(&mut v, format!("task-row/err/{}", t.kind), format!("{} {} ({pid}:{}): stored err {re:?} but live err {le:?}", t.kind, t.nid, t.tid));
+                }
+                if row["start_time"].as_i64() != Some(t.start_time) || row["end_time"].as_i64() != Some(t.end_time) {
+                    push(
+                        &mut v,
+                        format!("task-row/times/{}", t.kind),
+                        format!(
+                            "{} {} ({pid}:{}): stored start/end {}/{} but live {}/{}",
+                            t.kind, t.nid, t.tid, row["start_time"], row["end_time"], t.start_time, t.end_time
+                        ),
+                    );
+                }
+            }
+            let live: BTreeSet<&str> = d.tasks.iter().map(|t| t.tid.as_str()).collect();
+            for (tid, row) in &by {
+                if !live.contains(tid) {
+                    push(&mut v, "task-row/extra".into(), format!("the store has a task row {pid}:{tid} ({}) the live process does not know", row["state"]));
+                }
+            }
+        }
+    }
+    v
+}
